@@ -1171,7 +1171,15 @@ extern void
 io_close(file_pair *pair, bool success)
 {
 	// Take care of sparseness at the end of the output file.
-	if (success && pair->dest_try_sparse
+	//
+	// When writing to standard output this must be done even if the
+	// operation failed: the data that was decoded before the error has
+	// been "written" already, and without this the trailing zeros of
+	// that data would be missing from a regular file while a pipe would
+	// have received them. (Other destination files are unlinked on
+	// failure, so it doesn't matter for them.)
+	if ((success || pair->dest_fd == STDOUT_FILENO)
+			&& pair->dest_try_sparse
 			&& pair->dest_pending_sparse > 0) {
 		// Seek forward one byte less than the size of the pending
 		// hole, then write one zero-byte. This way the file grows
